@@ -61,4 +61,5 @@ def main():
     sh("git -C /repo checkout -- .")
 
 
-main()
+if __name__ == "__main__":
+    main()
